@@ -98,7 +98,8 @@ def build(cfg):
     T = list(cfg['types'])
     s = pyPRISM.System(T, kT=cfg['kT'])
     s.domain = pyPRISM.Domain(length=cfg['length'], dr=cfg['dr'])
-    for t in T:
+    # the order of the user's assignment statements is independent of the order of the type list
+    for t in cfg.get('assign_order', T):
         s.density[t] = cfg['rho'][t]
         s.diameter[t] = cfg['diam'][t]
     if cfg.get('assign') == 'group':
